@@ -104,3 +104,33 @@ Proof. vm_compute. eauto. Qed.
 Example err_touching : exists t s l, parse (w "/{a}{b}") = Err (ETouchingParameters t s l).  Proof. vm_compute. eauto. Qed.
 Example err_in_expansion : exists t s l, parse (w "/x(/{a}){b}") = Err (ETouchingParameters t s l) /\ t = w "/x/{a}{b}".
 Proof. vm_compute. eauto. Qed.
+
+(* C16: a clone family with a grouped template: histories, and the Arc view *)
+From WF Require Import Model.Arcs Proofs.FamilyP Proofs.ArcsP.
+Definition fam0 : list fop :=
+  [FOp 0 (OInsert (w "/a(/b)") 1); FOp 0 (OInsert (w "/c") 2); FClone 0 1; FOp 1 (ODelete (w "/a(/b)")); FOp 0 (OInsert (w "/d") 3)].
+Example family_histories :
+  hist fam0 0%N = [OInsert (w "/a(/b)") 1; OInsert (w "/c") 2; OInsert (w "/d") 3]
+  /\ hist fam0 1%N = [OInsert (w "/a(/b)") 1; OInsert (w "/c") 2; ODelete (w "/a(/b)")].
+Proof. vm_compute. split; reflexivity. Qed.
+Example family_clone_then_delete_on_the_copy :
+  exists i ps, rsearch chk0 (frun [] fam0 0%N) (w "/a/b") = Some (i, ps) /\ rsearch chk0 (frun [] fam0 1%N) (w "/a/b") = None.
+Proof. vm_compute. eauto. Qed.
+Example arcs_view_after_clone :
+  let v := astep (astep [] (AIns 0 (w "/a(/b)") 2)) (AClone 0 1) in
+  length v = 4 /\ own_b v = true /\ a_del_returns 1 (w "/a(/b)") v = true /\ a_del_returns 0 (w "/a(/b)") (astep v (ADel 1 (w "/a(/b)"))) = true.
+Proof. vm_compute. repeat split. Qed.
+
+(* C17: URLs of each shape are routed to the specified handler by the model routers of the regenerated table *)
+From WF Require Import Spec.OciSpec Check.Oci Proofs.OciP Proofs.OciTableP Proofs.OciSemP.
+Example oci_blob_pull : exists i ps,
+  rsearch oci_chk (oci_router (w "GET")) (w "/v2/library/nginx/blobs/sha256:abc/") = Some (i, ps)
+  /\ handler_of (i_data i) = w "blob::handle_blob_pull" /\ map snd ps = [w "library/nginx"; w "sha256:abc"].
+Proof. vm_compute. eauto. Qed.
+Example oci_shape_instance :
+  url_shape ShManifest (w "a/b") (Some (w "latest")) false (w "/v2/a/b/manifests/latest").
+Proof. cbn [url_shape]. eexists. split; [reflexivity|]. repeat split; try discriminate; try (vm_compute; reflexivity); vm_compute; intuition discriminate. Qed.
+Example oci_patch_upload_not_routed : rsearch oci_chk (oci_router (w "PATCH")) (w "/v2/a/blobs/uploads/u1") = None.
+Proof. vm_compute. reflexivity. Qed.
+Example oci_bad_name_not_routed : rsearch oci_chk (oci_router (w "GET")) (w "/v2/A/tags/list") = None.
+Proof. vm_compute. reflexivity. Qed.
